@@ -963,3 +963,405 @@ Proof.
     cbn [concat]. rewrite concat_app, app_length, skipn_add, <- !app_assoc.
     repeat (split; [first [assumption|reflexivity]|]). exact B6.
 Qed.
+
+(* ------------------------------------------------------------------------------------ *)
+(* two field lists + statistics that encode to the same header                           *)
+(* ------------------------------------------------------------------------------------ *)
+Lemma wval_const g1 g2 n : String.eqb n "zero" = true \/ String.eqb n "signature" = true -> wval g1 n = wval g2 n.
+Proof.
+  intros [H|H]; unfold wval; rewrite H; [reflexivity|]. destruct (String.eqb n "zero"); reflexivity.
+Qed.
+
+Lemma sval_cov_some m st n : 1 <= m <= 4 -> wfst st -> In n (cov m) -> exists z, sval st n = Some z.
+Proof.
+  intros Hm W Hin.
+  destruct (cov_cases m n Hm Hin) as [(i & Hi & ->)|[(i & Hi & ->)|[(i & Hi & ->)|[->|(-> & [->| ->])]]]].
+  - rewrite sval_max by assumption. eauto.
+  - rewrite sval_min by assumption. eauto.
+  - assert (i < 15)%nat by (destruct (m <? 4); lia). rewrite sval_ret by assumption. eauto.
+  - rewrite sval_count by assumption. eauto.
+  - rewrite sval_start by assumption. eauto.
+  - rewrite sval_nevlr by assumption. eauto.
+Qed.
+
+Lemma enc_header_agree m g1 g2 st1 st2 vl es : 1 <= m <= 4 ->
+  aint g1 "version.minor" = m -> aint g2 "version.minor" = m ->
+  aint g1 "version.major" = aint g2 "version.major" ->
+  (es = true -> aint g1 "offset_to_point_data" = aint g2 "offset_to_point_data") ->
+  (forall n, In n (hfn m) -> is_stat n = false -> derived n = false -> wval g1 n = wval g2 n) ->
+  abytes g1 "extra_header_bytes" = abytes g2 "extra_header_bytes" ->
+  abytes g1 "extra_vlr_bytes" = abytes g2 "extra_vlr_bytes" ->
+  sagree m st1 st2 ->
+  same_out (enc_header (with_stats g1 st1) vl es) (enc_header (with_stats g2 st2) vl es).
+Proof.
+  intros Hm M1 M2 Hmaj Hoff Hpl Heh Hev Hag.
+  pose proof Hag as (W1 & W2 & Hc & _).
+  assert (forall k, is_stat k = false -> sval st1 k = None) as N1 by (intros; now apply sval_none).
+  assert (forall k, is_stat k = false -> sval st2 k = None) as N2 by (intros; now apply sval_none).
+  assert (aint (with_stats g1 st1) "version.minor" = m) as M1'
+    by (rewrite aint_with_stats_none by (now apply N1); exact M1).
+  apply enc_header_ext_gen.
+  - rewrite !aint_with_stats_none by (first [now apply N1|now apply N2]). exact Hmaj.
+  - rewrite M1'. rewrite aint_with_stats_none by (now apply N2). now rewrite M2.
+  - rewrite (aint_with_stats_some _ _ _ _ (sval_count st1 W1)), (aint_with_stats_some _ _ _ _ (sval_count st2 W2)).
+    exact Hc.
+  - intros ->. rewrite !aint_with_stats_none by (first [now apply N1|now apply N2]). now apply Hoff.
+  - rewrite M1'. intros n Hin Hd.
+    destruct (wnames_class m n Hm Hin) as [Hk|(Hh & [Hs|Hcv])].
+    + now apply wval_const.
+    + apply wval_with_stats_cong; [now rewrite N1, N2|]. intros _. now apply Hpl.
+    + apply wval_with_stats_cong; [now apply (sagree_sval m)|].
+      destruct (sval_cov_some m st2 n Hm W2 Hcv) as (z & ->). discriminate.
+  - rewrite !abytes_with_stats_none by (first [now apply N1|now apply N2]). exact Heh.
+  - rewrite !abytes_with_stats_none by (first [now apply N1|now apply N2]). exact Hev.
+Qed.
+
+Lemma fold_astep_set_ev ap fmt g Bs : forall st e k,
+  fold_left (astep ap fmt g) Bs (set_ev st e k) = set_ev (fold_left (astep ap fmt g) Bs st) e k.
+Proof.
+  induction Bs as [|c Bs IH]; intros st e k; [reflexivity|]. cbn [fold_left]. now rewrite astep_set_ev, IH.
+Qed.
+
+Lemma sagree_close m s1 s2 e e' k : m = 4 -> sagree m s1 (set_ev s2 e k) ->
+  sagree m (mkS (s_count s1) (s_max s1) (s_min s1) (s_ret s1) e' (s_nevlr s1)) (set_ev s2 e' k).
+Proof.
+  intros M4 (W1 & W2 & Hc & Hx & Hn & Hr & He). destruct (He M4) as [_ Hk].
+  exact (conj W1 (conj W2 (conj Hc (conj Hx (conj Hn (conj Hr (fun _ => conj eq_refl Hk))))))).
+Qed.
+
+(* ------------------------------------------------------------------------------------ *)
+(* C06: append = one-shot write of the concatenation                                     *)
+(* ------------------------------------------------------------------------------------ *)
+Lemma axis_core pre i : (pre = "scales" \/ pre = "offsets")%string -> In (axis_name pre i) plain_core.
+Proof. intros [-> | ->]; destruct i as [|[|i]]; cbn; tauto. Qed.
+
+Lemma skipn_skipn_all {A} (l : list A) k : skipn (length l) (skipn k l) = [].
+Proof. apply skipn_all2. rewrite skipn_length. lia. Qed.
+
+Theorem append_equiv : forall ap, ap_ok ap -> (forall s o x, 0 <= ap s o x) ->
+  forall h vl fmt A evl Bs f0 f1,
+  wf_las ap h vl fmt A evl -> wf_las ap h vl fmt (A ++ concat Bs) evl ->
+  file_of ap h vl fmt A evl = Ok f0 ->
+  file_of ap h vl fmt (A ++ concat Bs) evl = Ok f1 ->
+  arun ap f0 Bs = Ok f1.
+Proof.
+  intros ap Hap _ h vl fmt A evl Bs f0 f1 WA WAB FA FAB.
+  destruct (file_facts _ _ _ _ _ _ _ WA FA)
+    as (h0 & b0 & eb & hA & bA & E0 & Eeb & EA & -> & WfA & Wevl & WrA & Wps & Wev4 & Wnev & Wfmt).
+  destruct (file_facts _ _ _ _ _ _ _ WAB FAB)
+    as (h0' & b0' & eb' & hAB & bAB & E0' & Eeb' & EAB & -> & WfAB & _ & WrAB & _ & _ & _ & _).
+  rewrite E0 in E0'. injection E0' as <- <-. rewrite Eeb in Eeb'. injection Eeb' as <-.
+  set (m := aint h0 "version.minor").
+  pose proof (wfst_fstats ap fmt h A evl (len b0)) as WstA.
+  pose proof (wfst_fstats ap fmt h (A ++ concat Bs) evl (len b0)) as WstAB.
+  pose proof (rb_range _ _ _ _ _ WstA EA) as Hm. fold m in Hm.
+  destruct (of_aopen ap h vl fmt A evl h0 b0 eb hA bA E0 Eeb EA WfA Wevl WrA Wev4 Wfmt)
+    as (s0 & Hopen & S1 & S2 & S3 & S4 & S5 & S6 & Hr).
+  fold m in Hr. destruct Hr as (Hget & Heh & Hev).
+  pose proof (rb_core _ _ _ _ _ _ _ E0 WstA EA _ Hget) as Hcore.
+  destruct (rb_bytes _ _ _ _ _ _ _ E0 WstA EA _ Heh Hev) as [Beh Bev].
+  pose proof (rb_stats _ _ _ _ _ _ _ E0 WstA EA _ Hget) as Hag0. fold m in Hag0. rewrite <- S6 in Hag0.
+  pose proof (rb_plain_wval _ _ _ _ _ _ _ E0 WstA EA _ Hget) as Hplain. fold m in Hplain.
+  pose proof (rb_count_max _ _ _ _ _ WstAB EAB) as Hmax. fold m in Hmax.
+  rewrite fstats_count, len_app in Hmax.
+  unfold arun. rewrite Hopen. cbn [bind].
+  rewrite app_assoc in S1.
+  (* the chunks *)
+  destruct (afold ap m fmt h Bs s0 (bA ++ concat A) eb (fstats ap fmt h A evl (len b0)) S1 S2 S4) as (F1 & F2 & F3 & F4 & F5 & F6).
+  { intros i. destruct (Hcore _ (axis_core "scales" i (or_introl eq_refl))) as [-> _].
+    apply (open_plain_aint _ _ _ _ _ E0); destruct i as [|[|i]]; reflexivity. }
+  { intros i. destruct (Hcore _ (axis_core "offsets" i (or_intror eq_refl))) as [-> _].
+    apply (open_plain_aint _ _ _ _ _ E0); destruct i as [|[|i]]; reflexivity. }
+  { exact Hag0. }
+  { rewrite fstats_count.
+    destruct (Hcore "version.major"%string ltac:(cbn; tauto)) as [-> _].
+    destruct (Hcore "version.minor"%string ltac:(cbn; tauto)) as [-> _]. exact Hmax. }
+  set (s' := fold_left (fun s c => fst (apoints ap s c true)) Bs s0) in *.
+  set (N := concat (concat Bs)) in *.
+  (* the statistics after the chunks *)
+  assert (exists st', sagree m st' (fstats ap fmt h (A ++ concat Bs) evl (len b0)) /\
+            exists f, (let '(st'', f') :=
+                         match a_evlrs s' with
+                         | Some (e :: es) =>
+                           match enc_vlrs true (e :: es) with
+                           | Ok eb0 => (mkS (s_count (a_st s')) (s_max (a_st s')) (s_min (a_st s')) (s_ret (a_st s'))
+                                            (a_pos s') (s_nevlr (a_st s')), write_at (a_file s') (a_pos s') eb0)
+                           | Err _ => (a_st s', a_file s')
+                           end
+                         | _ => (a_st s', a_file s')
+                         end in (st'', f')) = (st', f) /\ f = bA ++ concat (A ++ concat Bs) ++ eb) as (st' & Hag' & f & Hcl & Hf).
+  { rewrite F3, S5. destruct (list_cases evl) as [Eevl|(e & es & Eevl)].
+    - rewrite Eevl. exists (a_st s'). split.
+      + unfold fstats in *. rewrite Eevl in *. rewrite (fold_astep ap Hap) in F6. exact F6.
+      + exists (a_file s'). split; [reflexivity|]. rewrite F4.
+        rewrite Eevl in Eeb. cbn [enc_vlrs] in Eeb. injection Eeb as <-.
+        rewrite skipn_nil, !app_nil_r, concat_app, <- app_assoc. reflexivity.
+    - assert (m = 4) as M4.
+      { destruct Wev4 as [W|W]; [rewrite Eevl in W; discriminate|].
+        rewrite <- (open_plain_aint _ _ _ _ "version.minor" E0 eq_refl eq_refl) in W. fold m in W. lia. }
+      subst evl. cbv beta iota. rewrite Eeb.
+      eexists. split; [|eexists; split; [reflexivity|]].
+      + unfold fstats in F6 |- *.
+        rewrite fold_astep_set_ev, (fold_astep ap Hap) in F6.
+        replace (len b0 + len (concat (A ++ concat Bs))) with (a_pos s').
+        * apply (sagree_close m _ _ _ _ _ M4 F6).
+        * rewrite F5, concat_app, !len_app. fold N. rewrite (rb_len _ _ _ _ _ _ _ E0 EA). lia.
+      + rewrite F4, F5, write_at_mid. unfold N. rewrite skipn_skipn_all, app_nil_r.
+        rewrite concat_app, <- !app_assoc. reflexivity. }
+  (* the header *)
+  assert (same_out (enc_header (with_stats (a_h s0) st') vl true)
+                   (enc_header (with_stats h0 (fstats ap fmt h (A ++ concat Bs) evl (len b0))) vl true)) as Hso.
+  { apply (enc_header_agree m); try assumption.
+    - apply Hcore. cbn; tauto.
+    - reflexivity.
+    - apply Hcore. cbn; tauto.
+    - intros _. apply Hcore. cbn; tauto.
+    - intros n Hin Hs _. now apply Hplain. }
+  destruct (enc_header_transfer _ _ _ _ _ _ EAB Hso) as (h1' & Hh1).
+  unfold aclose. cbv zeta. rewrite F1, F2, S3.
+  match goal with |- context [let '(a, b) := ?X in _] => destruct X as [st2 f2] end.
+  injection Hcl as -> ->. rewrite Hh1. cbn [bind snd]. rewrite Hf. f_equal.
+  apply write_at_prefix.
+  pose proof (rb_len _ _ _ _ _ _ _ E0 EA) as L1. pose proof (rb_len _ _ _ _ _ _ _ E0 EAB) as L2.
+  unfold len in *. lia.
+Qed.
+Print Assumptions append_equiv.
+
+Corollary append_sessions : forall ap, ap_ok ap -> (forall s o x, 0 <= ap s o x) ->
+  forall h vl fmt A evl Bs Cs f0 f1 f2,
+  wf_las ap h vl fmt A evl -> wf_las ap h vl fmt (A ++ concat Bs) evl -> wf_las ap h vl fmt ((A ++ concat Bs) ++ concat Cs) evl ->
+  file_of ap h vl fmt A evl = Ok f0 -> file_of ap h vl fmt (A ++ concat Bs) evl = Ok f1 ->
+  file_of ap h vl fmt ((A ++ concat Bs) ++ concat Cs) evl = Ok f2 ->
+  arun ap f0 Bs = Ok f1 /\ arun ap f1 Cs = Ok f2 /\ arun ap f0 (Bs ++ Cs) = Ok f2.
+Proof.
+  intros ap Hap Hnn h vl fmt A evl Bs Cs f0 f1 f2 W0 W1 W2 F0 F1 F2.
+  split; [exact (append_equiv ap Hap Hnn h vl fmt A evl Bs f0 f1 W0 W1 F0 F1)|].
+  split; [exact (append_equiv ap Hap Hnn h vl fmt (A ++ concat Bs) evl Cs f1 f2 W1 W2 F1 F2)|].
+  assert ((A ++ concat Bs) ++ concat Cs = A ++ concat (Bs ++ Cs)) as E
+    by (now rewrite concat_app, app_assoc).
+  rewrite E in W2, F2.
+  exact (append_equiv ap Hap Hnn h vl fmt A evl (Bs ++ Cs) f0 f2 W0 W2 F0 F2).
+Qed.
+Print Assumptions append_sessions.
+
+(* refusals *)
+Theorem append_wrong_format : forall ap s recs, recs <> [] -> apoints ap s recs false = (s, Err ELaspy).
+Proof. intros ap s recs Hr. destruct recs as [|r recs]; [contradiction|]. reflexivity. Qed.
+Print Assumptions append_wrong_format.
+
+Theorem append_empty_chunk : forall ap s b, apoints ap s [] b = (s, Ok tt).
+Proof. reflexivity. Qed.
+Print Assumptions append_empty_chunk.
+
+(* ------------------------------------------------------------------------------------ *)
+(* reading with EVLRs: the same header, plus the EVLR list                               *)
+(* ------------------------------------------------------------------------------------ *)
+Definition raw_minor (src : list Z) : Z :=
+  let hb := firstn 227 src in
+  let off0 := le_dec (firstn 4 (skipn 96 hb)) in
+  let stream := if off0 <? 227 then src else firstn (Z.to_nat off0) src in
+  le_dec (firstn 1 (skipn 25 stream)).
+
+Definition read_evl (src : list Z) (a : assoc) : result (option (list vlr)) :=
+  if raw_minor src >=? 4 then
+    if aint a "number_of_evlrs" >? 0 then
+      do r <- dec_vlrs true (Z.to_nat (aint a "number_of_evlrs")) (skipn (Z.to_nat (aint a "start_of_first_evlr")) src);
+      Ok (Some (fst r))
+    else Ok (Some [])
+  else Ok None.
+
+Lemma dec_header_flag src rh : dec_header src false = Ok rh ->
+  dec_header src true =
+    do ev <- read_evl src (rh_fields rh);
+    Ok (mkRH (rh_fields rh) (rh_vlrs rh) ev (rh_fmt rh) (rh_compressed rh) (rh_psize rh) (rh_offset rh)).
+Proof.
+  intros H. unfold read_evl, raw_minor. unfold dec_header in *. cbv zeta in *. unfold bind in *.
+  repeat match type of H with
+  | (match ?x with _ => _ end) = _ => destruct x; try discriminate H
+  end.
+  injection H as <-. cbn [rh_fields rh_vlrs rh_fmt rh_compressed rh_psize rh_offset].
+  rewrite !aint_aset_other by reflexivity. reflexivity.
+Qed.
+
+Lemma raw_minor_enc g vl es hR bR rest : enc_header g vl es = Ok (hR, bR) ->
+  raw_minor (bR ++ rest) = aint hR "version.minor".
+Proof.
+  intros He. pose proof (enc_header_len _ _ _ _ _ He) as Hlen.
+  destruct (enc_header_inv _ _ _ _ _ He) as (vb & hs0 & fb & Hv & Hh & _ & _ & HhR & Hf & Hbs).
+  destruct (tbl_cases_range _ _ _ Hh) as (_ & Hm & Hhs0).
+  destruct (hw_layout_width _ _ _ Hh) as [Hw Hok].
+  pose proof (enc_fields_len _ _ _ Hok Hf) as Hfb. rewrite Hw in Hfb.
+  set (tail := abytes g "extra_header_bytes" ++ vb ++ abytes g "extra_vlr_bytes") in *.
+  destruct (header_prefix _ hR fb (tail ++ rest) Hm Hf) as (_ & _ & Poff).
+  destruct (header_prefix _ hR fb tail Hm Hf) as (_ & Pmnr & _).
+  assert (bR ++ rest = fb ++ tail ++ rest) as Hsrc by (rewrite Hbs, <- app_assoc; reflexivity).
+  rewrite <- Hsrc in Poff. rewrite <- Hbs in Pmnr. rewrite <- Hlen in Poff.
+  pose proof (len_nonneg tail) as Nt.
+  assert (len bR = hs0 + len tail) as HlbR by (rewrite Hbs, len_app; lia).
+  unfold raw_minor. cbv zeta.
+  rewrite skipn_firstn_comm, firstn_firstn. change (Init.Nat.min 4 (227 - 96)) with 4%nat. rewrite Poff.
+  replace (len bR <? 227) with false by lia.
+  rewrite to_nat_len. rewrite (firstn_app_exact bR rest (length bR) eq_refl). exact Pmnr.
+Qed.
+
+(* ------------------------------------------------------------------------------------ *)
+(* reading a well-formed file back                                                       *)
+(* ------------------------------------------------------------------------------------ *)
+Definition evl_of (o : option (list vlr)) : list vlr := match o with Some l => l | None => [] end.
+
+Section ReadFile.
+  Variable ap : Z -> Z -> Z -> Z.
+  Variables (h : assoc) (vl : list vlr) (fmt : Z) (A : list (list Z)) (evl : list vlr).
+  Variables (h0 : assoc) (b0 eb : list Z) (hA : assoc) (bA : list Z).
+  Hypothesis E0 : enc_header (with_stats h stats0) vl false = Ok (h0, b0).
+  Hypothesis Eeb : enc_vlrs true evl = Ok eb.
+  Hypothesis EA : enc_header (with_stats h0 (fstats ap fmt h A evl (len b0))) vl true = Ok (hA, bA).
+  Hypothesis WfA : wf_header hA vl = true.
+  Hypothesis Wevl : forallb (wf_vlr true) evl = true.
+  Hypothesis WrA : recs_ok (aint hA "point_size") A = true.
+  Hypothesis Wps : 0 < aint hA "point_size".
+  Hypothesis Wev4 : evl = [] \/ aint h "version.minor" >= 4.
+  Hypothesis Wfmt : compressed_id_to_uncompressed (aint h "point_format_id") = fmt.
+  Let m := aint h0 "version.minor".
+  Let stA := fstats ap fmt h A evl (len b0).
+  Let f0 := bA ++ concat A ++ eb.
+
+  Lemma rf_evl hd : reads m hd hA -> exists ev, read_evl f0 hd = Ok ev /\ evl_of ev = evl.
+  Proof.
+    intros (Hget & Heh & Hev).
+    pose proof (wfst_fstats ap fmt h A evl (len b0)) as WstA.
+    pose proof (rb_stats _ _ _ _ _ _ _ E0 WstA EA _ Hget) as Hag. fold m in Hag.
+    pose proof (rb_range _ _ _ _ _ WstA EA) as Hm. fold m in Hm.
+    destruct Hag as (_ & _ & _ & _ & _ & _ & He).
+    unfold read_evl, f0. rewrite (raw_minor_enc _ _ _ _ _ _ EA).
+    rewrite (rb_minorR _ _ _ _ _ _ _ E0 WstA EA). fold m.
+    destruct (m >=? 4) eqn:E4.
+    - assert (m = 4) as M4 by lia. destruct (He M4) as [Hs Hn].
+      unfold stats_of_header in Hs, Hn. cbn [s_evlr_start s_nevlr] in Hs, Hn. rewrite Hs, Hn.
+      unfold fstats. destruct (list_cases evl) as [Eevl|(e & es & Eevl)].
+      + rewrite Eevl. destruct (s_nevlr_stats_of ap fmt h A) as [-> _].
+        change (0 >? 0) with false. exists (Some []). split; reflexivity.
+      + rewrite Eevl. cbn [set_ev s_evlr_start s_nevlr]. rewrite <- Eevl.
+        pose proof (len_nonneg es) as Hes.
+        assert (len evl = 1 + len es) as Hl by (rewrite Eevl; unfold len; cbn [length]; lia).
+        replace (len evl >? 0) with true by lia.
+        rewrite <- (rb_len _ _ _ _ _ _ _ E0 EA), <- len_app.
+        rewrite !to_nat_len. rewrite app_assoc, skipn_app_exact by reflexivity.
+        rewrite <- (app_nil_r eb). rewrite (dec_enc_vlrs true evl eb [] Wevl Eeb). cbn [bind fst].
+        exists (Some evl). split; reflexivity.
+    - exists None. split; [reflexivity|]. cbn [evl_of].
+      destruct Wev4 as [->|H4]; [reflexivity|].
+      rewrite <- (open_plain_aint _ _ _ _ "version.minor" E0 eq_refl eq_refl) in H4. fold m in H4. lia.
+  Qed.
+
+  Lemma rf_read lf : read_file f0 = Ok lf ->
+    reads m (rh_fields (lf_h lf)) hA /\ rh_vlrs (lf_h lf) = vl /\ rh_fmt (lf_h lf) = fmt
+    /\ lf_points lf = A /\ evl_of (rh_evlrs (lf_h lf)) = evl.
+  Proof.
+    intros Hrd.
+    destruct (of_dec ap h vl fmt A evl h0 b0 eb hA bA E0 EA WfA Wfmt) as (rh & Hd & R1 & R2 & R3 & R4 & Hr).
+    fold m f0 in Hd, Hr.
+    destruct (rf_evl _ Hr) as (ev & Hev & Hevl).
+    pose proof Hr as (Hget & _ & _).
+    pose proof (wfst_fstats ap fmt h A evl (len b0)) as WstA.
+    pose proof (rb_stats _ _ _ _ _ _ _ E0 WstA EA _ Hget) as Hag. fold m in Hag.
+    destruct Hag as (_ & _ & Hc & _). unfold stats_of_header in Hc. cbn [s_count] in Hc.
+    rewrite fstats_count in Hc.
+    unfold read_file in Hrd. rewrite (dec_header_flag _ _ Hd), Hev in Hrd. cbn [bind rh_fields rh_offset rh_psize] in Hrd.
+    rewrite Hc in Hrd.
+    pose proof (len_concat_recs _ _ WrA) as HlA.
+    destruct (len A <=? 0) eqn:E0'.
+    - injection Hrd as <-. cbn [lf_h lf_points rh_fields rh_vlrs rh_fmt rh_evlrs].
+      assert (A = []) as EA' by (destruct A; [reflexivity|unfold len in E0'; cbn [length] in E0'; lia]).
+      exact (conj Hr (conj R1 (conj R4 (conj (eq_sym EA') Hevl)))).
+    - assert (read_records f0 (rh_offset rh) (rh_psize rh) 0 (len A) = Ok A) as Hrr.
+      { unfold read_records. cbv zeta. rewrite R2, R3.
+        replace (len bA + 0 * aint hA "point_size") with (len bA) by lia.
+        rewrite <- HlA, !to_nat_len. unfold f0.
+        rewrite skipn_app_exact by reflexivity. rewrite firstn_app_exact by reflexivity.
+        replace (aint hA "point_size" <=? 0) with false by lia.
+        rewrite HlA, Z.mod_mul by lia. change (0 =? 0) with true. cbv iota.
+        f_equal. apply chunks_of_concat; [lia|now apply recs_ok_Forall|].
+        unfold len in HlA. nia. }
+      rewrite Hrr in Hrd. cbn [bind] in Hrd. injection Hrd as <-.
+      cbn [lf_h lf_points rh_fields rh_vlrs rh_fmt rh_evlrs].
+      exact (conj Hr (conj R1 (conj R4 (conj eq_refl Hevl)))).
+  Qed.
+End ReadFile.
+
+(* ------------------------------------------------------------------------------------ *)
+(* C01: rewriting what was read                                                          *)
+(* ------------------------------------------------------------------------------------ *)
+Lemma enc_keeps_aget g vl es h' bs n : enc_header g vl es = Ok (h', bs) -> derived n = false -> aget h' n = aget g n.
+Proof.
+  intros H Hd. destruct (enc_header_inv _ _ _ _ _ H) as (vb & hs0 & fb & _ & _ & _ & _ & -> & _ & _).
+  unfold derived in Hd. apply orb_false_iff in Hd as [Hd H3]. apply orb_false_iff in Hd as [H1 H2].
+  now rewrite !aget_aset_other by assumption.
+Qed.
+
+Lemma stats_of_ext ap fmt g1 g2 R :
+  (forall i, aint g1 (axis_name "scales" i) = aint g2 (axis_name "scales" i)) ->
+  (forall i, aint g1 (axis_name "offsets" i) = aint g2 (axis_name "offsets" i)) ->
+  stats_of ap fmt g1 R = stats_of ap fmt g2 R.
+Proof. intros Hs Ho. destruct R as [|r R]; [reflexivity|]. unfold stats_of. now apply grow_ext. Qed.
+
+Theorem rewrite_idempotent : forall ap, ap_ok ap -> (forall s o x, 0 <= ap s o x) ->
+  forall h vl fmt recs evl f lf,
+  wf_las ap h vl fmt recs evl ->
+  file_of ap h vl fmt recs evl = Ok f -> read_file f = Ok lf ->
+  file_of ap (rh_fields (lf_h lf)) (rh_vlrs (lf_h lf)) (rh_fmt (lf_h lf)) (lf_points lf)
+          (match rh_evlrs (lf_h lf) with Some l => l | None => [] end) = Ok f.
+Proof.
+  intros ap _ _ h vl fmt R evl f lf W F Hrd.
+  destruct (file_facts _ _ _ _ _ _ _ W F)
+    as (h0 & b0 & eb & hR & bR & E0 & Eeb & ER & -> & WfR & Wevl & WrR & Wps & Wev4 & Wnev & Wfmt).
+  destruct (rf_read ap h vl fmt R evl h0 b0 eb hR bR E0 Eeb ER WfR Wevl WrR Wps Wev4 Wfmt lf Hrd)
+    as (Hr & -> & -> & -> & Hevl).
+  change (match rh_evlrs (lf_h lf) with Some l => l | None => [] end) with (evl_of (rh_evlrs (lf_h lf))).
+  rewrite Hevl. set (hd := rh_fields (lf_h lf)) in *. set (m := aint h0 "version.minor") in *.
+  destruct Hr as (Hget & Heh & Hev).
+  pose proof (wfst_fstats ap fmt h R evl (len b0)) as Wst.
+  pose proof (rb_range _ _ _ _ _ Wst ER) as Hm. fold m in Hm.
+  pose proof (rb_core _ _ _ _ _ _ _ E0 Wst ER _ Hget) as Hcore.
+  destruct (rb_bytes _ _ _ _ _ _ _ E0 Wst ER _ Heh Hev) as [Beh Bev].
+  pose proof (rb_plain_wval _ _ _ _ _ _ _ E0 Wst ER _ Hget) as Hplain. fold m in Hplain.
+  assert (forall k, is_stat k = false -> sval stats0 k = None) as N0 by (intros; apply sval_none; [apply wfst_stats0|assumption]).
+  (* the opening header *)
+  assert (same_out (enc_header (with_stats hd stats0) vl false) (enc_header (with_stats h stats0) vl false)) as Hso0.
+  { apply (enc_header_agree m); try assumption.
+    - apply Hcore. cbn; tauto.
+    - symmetry. apply (open_plain_aint _ _ _ _ _ E0); reflexivity.
+    - destruct (Hcore "version.major"%string ltac:(cbn; tauto)) as [-> _].
+      apply (open_plain_aint _ _ _ _ _ E0); reflexivity.
+    - discriminate.
+    - intros n Hin Hs Hd. rewrite (Hplain n Hin Hs). apply wval_aget. now apply (open_plain _ _ _ _ _ E0).
+    - rewrite Beh. apply (open_plain_abytes _ _ _ _ _ E0); reflexivity.
+    - rewrite Bev. apply (open_plain_abytes _ _ _ _ _ E0); reflexivity.
+    - apply sagree_refl, wfst_stats0. }
+  destruct (enc_header_transfer _ _ _ _ _ _ E0 Hso0) as (hd0 & Ed0).
+  (* the statistics *)
+  assert (fstats ap fmt hd R evl (len b0) = fstats ap fmt h R evl (len b0)) as Hfs.
+  { unfold fstats. rewrite (stats_of_ext ap fmt hd h R); [reflexivity| |].
+    - intros i. destruct (Hcore _ (axis_core "scales" i (or_introl eq_refl))) as [-> _].
+      apply (open_plain_aint _ _ _ _ _ E0); destruct i as [|[|i]]; reflexivity.
+    - intros i. destruct (Hcore _ (axis_core "offsets" i (or_intror eq_refl))) as [-> _].
+      apply (open_plain_aint _ _ _ _ _ E0); destruct i as [|[|i]]; reflexivity. }
+  (* the final header *)
+  assert (forall n, derived n = false -> is_stat n = false -> aget hd0 n = aget hd n) as Hd0.
+  { intros n Hd Hs. rewrite (enc_keeps_aget _ _ _ _ _ _ Ed0 Hd). rewrite aget_with_stats. now rewrite N0. }
+  assert (same_out (enc_header (with_stats hd0 (fstats ap fmt h R evl (len b0))) vl true)
+                   (enc_header (with_stats h0 (fstats ap fmt h R evl (len b0))) vl true)) as Hso1.
+  { apply (enc_header_agree m); try assumption.
+    - unfold aint. rewrite Hd0 by reflexivity. apply Hcore. cbn; tauto.
+    - reflexivity.
+    - unfold aint at 1. rewrite Hd0 by reflexivity. apply Hcore. cbn; tauto.
+    - intros _. rewrite <- (enc_header_len _ _ _ _ _ Ed0). symmetry. exact (enc_header_len _ _ _ _ _ E0).
+    - intros n Hin Hs Hd. rewrite <- (Hplain n Hin Hs). apply wval_aget. now apply Hd0.
+    - unfold abytes at 1. rewrite Hd0 by reflexivity. exact Beh.
+    - unfold abytes at 1. rewrite Hd0 by reflexivity. exact Bev.
+    - now apply sagree_refl. }
+  destruct (enc_header_transfer _ _ _ _ _ _ ER Hso1) as (hR' & ER').
+  rewrite <- Hfs in ER'.
+  exact (file_of_intro ap hd vl fmt R evl hd0 b0 eb hR' bR Ed0 Eeb ER').
+Qed.
+Print Assumptions rewrite_idempotent.
